@@ -29,6 +29,8 @@ func SiteName(site int32) string {
 		return "<op-boundary>"
 	case site == SiteCallback:
 		return "<service-callback>"
+	case site == SiteLockWait:
+		return "<lock-wait>"
 	case site >= 0 && int(site) < len(SiteNames):
 		return SiteNames[site]
 	}
@@ -38,6 +40,7 @@ func SiteName(site int32) string {
 const (
 	SiteOpBoundary int32 = -1
 	SiteCallback   int32 = -2
+	SiteLockWait   int32 = -3
 )
 
 // BudgetPanic is raised inside the library goroutine when an operation exceeds its step budget.
@@ -225,6 +228,31 @@ func NoYieldDec() {
 		}
 	}
 }
+
+// LockSpin is what `x.Lock()` / `x.RLock()` on a sync.Mutex/RWMutex is rewritten to
+// (`verifhook.LockSpin(x.TryLock)`): a blocked task spins through the scheduler instead of
+// blocking the process, so a lock that is never released ends in a step-budget overrun.
+func LockSpin(try func() bool) {
+	for !try() {
+		Yield(SiteLockWait)
+		lockSpinPause()
+	}
+	NoYieldInc()
+}
+
+//go:norace
+func lockSpinPause() {
+	if mode == modeOff {
+		// outside any simulated operation there is no budget to stop a spin: fall back to yielding
+		// the processor (init-time code, harness helpers)
+		spinOutside++
+		if spinOutside > 50000000 {
+			panic("verifhook: lock never released outside a simulated operation")
+		}
+	}
+}
+
+var spinOutside int
 
 // UnlockDeferred is what `defer x.Unlock()` is rewritten to: `defer verifhook.UnlockDeferred(x.Unlock)`.
 func UnlockDeferred(unlock func()) {
